@@ -155,3 +155,19 @@ func TestVN_D15_AcquireLockNegativeTtl(t *testing.T) {
 		t.Fatalf("negative ttl: want InvalidArgument without a kernel request, got err=%v kernel calls=%d", err, k.calls)
 	}
 }
+
+// D17: a callback/subscription whose physical receiver carries data that is not a JSON text cannot be stored; it is
+// an invalid request and must be answered with a client error (InvalidArgument), not with codes.Unknown.
+func TestVN_D17_CallbackRecvDataNotJSON(t *testing.T) {
+	k := &vnKernel{res: &t_api.Response{Kind: t_api.CreateCallback, CreateCallback: &t_api.CreateCallbackResponse{Status: t_api.StatusCreated}}}
+	recv := &pb.Recv{Recv: &pb.Recv_Physical{Physical: &pb.PhysicalRecv{Type: "http", Data: []byte("{not json")}}}
+	_, err := vnServer(k).CreateCallback(context.Background(), &pb.CreateCallbackRequest{Id: "c", PromiseId: "p", RootPromiseId: "r", Timeout: 1, Recv: recv})
+	if status.Code(err) != codes.InvalidArgument || k.calls != 0 {
+		t.Fatalf("callback: want InvalidArgument without a kernel request, got code=%v err=%v kernel calls=%d", status.Code(err), err, k.calls)
+	}
+	k = &vnKernel{res: &t_api.Response{Kind: t_api.CreateSubscription, CreateSubscription: &t_api.CreateSubscriptionResponse{Status: t_api.StatusCreated}}}
+	_, err = vnServer(k).CreateSubscription(context.Background(), &pb.CreateSubscriptionRequest{Id: "s", PromiseId: "p", Timeout: 1, Recv: recv})
+	if status.Code(err) != codes.InvalidArgument || k.calls != 0 {
+		t.Fatalf("subscription: want InvalidArgument without a kernel request, got code=%v err=%v kernel calls=%d", status.Code(err), err, k.calls)
+	}
+}
